@@ -1078,6 +1078,47 @@ def special_checks():
                                     got=got.detach().reshape(-1).tolist(), want=want.detach().reshape(-1).tolist(), violated=['differs from the derivative']))
     except Exception as e:
         bad.append(dict(case='coordinates and expression of different precision', violated=[f'{type(e).__name__}: {e}']))
+    # the shape-checked entry points reject ill-shaped operands at EVERY order (not only for first derivatives)
+    try:
+        from neurodiffeq.neurodiffeq import safe_diff
+        tcol = col(0.3, 0.6, -0.9)
+        shapes = {'(n,)': lambda: (tcol ** 2).reshape(-1), '(n, 2)': lambda: torch.cat([tcol, tcol ** 2], 1), '(1, 1)': lambda: (tcol[:1] * 2), '(n, 1, 1)': lambda: (tcol ** 2).reshape(3, 1, 1),
+                  '(n, 0)': lambda: (tcol ** 2)[:, 1:1]}
+        for sname, mk in shapes.items():
+            for k in (1, 2, 3):
+                for call, fn in (('safe_diff', lambda u_: safe_diff(u_, tcol, order=k)), ('diff', lambda u_: diff(u_, tcol, order=k)),
+                                 ('diff(shape_check=True)', lambda u_: diff(u_, tcol, order=k, shape_check=True))):
+                    try:
+                        r_ = fn(mk())
+                        bad.append(dict(case='shape-checked entry point on an ill-shaped dependent variable', entry_point=call, order=k, u_shape=sname, t_shape='(n, 1)',
+                                        violated=['accepted (returned a tensor of shape %s) instead of rejecting' % (tuple(r_.shape),)]))
+                    except ValueError:
+                        pass
+        # ... and accept well-shaped ones whatever their memory layout: a non-contiguous (n, 1) column of a wider tensor is a column
+        xy = torch.tensor([[0.3, 1.0], [0.6, -2.0], [-0.9, 0.5]], requires_grad=True)
+        tv = xy[:, 0:1]
+        wide = torch.tensor([[0.3], [9.0], [0.6], [9.0], [-0.9], [9.0]], requires_grad=True)
+        ts = wide[::2]
+        for nm, tt_ in (('column view xy[:, 0:1]', tv), ('strided rows table[::2]', ts)):
+            u_ = tt_ ** 3 + 2 * tt_
+            for k, want in ((1, 3 * tt_ ** 2 + 2), (2, 6 * tt_), (3, torch.full_like(tt_, 6.0))):
+                for call, fn in (('diff', lambda: diff(u_, tt_, order=k)), ('safe_diff', lambda: safe_diff(u_, tt_, order=k))):
+                    got = fn()
+                    if not torch.allclose(got.detach(), want.detach(), rtol=1e-12, atol=1e-12):
+                        bad.append(dict(case='non-contiguous (n, 1) coordinate', coordinate=nm, entry_point=call, order=k, got=got.detach().reshape(-1).tolist(),
+                                        want=want.detach().reshape(-1).tolist(), violated=['differs from the derivative']))
+            g_ = torch.autograd.grad(diff(u_, tt_).sum(), xy if tt_ is tv else wide, allow_unused=True)[0]
+            if g_ is None or float(g_.abs().max()) == 0.0:
+                bad.append(dict(case='non-contiguous (n, 1) coordinate', coordinate=nm, violated=['the derivative cannot be back-propagated to the tensor the coordinate is a view of']))
+        # d^k t / dt^k for k >= 2 is zero (order exceeds the polynomial degree), through every entry point
+        for k in (2, 3):
+            for call, fn in (('diff', lambda: diff(tcol, tcol, order=k)), ('safe_diff', lambda: safe_diff(tcol, tcol, order=k)), ('unsafe_diff', lambda: unsafe_diff(tcol, tcol, order=k))):
+                got = fn()
+                if tuple(got.shape) != (3, 1) or float(got.detach().abs().max()) != 0.0:
+                    bad.append(dict(case='derivative of a coordinate with respect to itself', order=k, entry_point=call, got=got.detach().reshape(-1).tolist(), want=[0.0] * 3,
+                                    violated=['not zero although the order exceeds the degree']))
+    except Exception as e:
+        bad.append(dict(case='shape guards at higher orders / non-contiguous coordinates', violated=[f'{type(e).__name__}: {e}']))
     # same values when diff is called inside torch.no_grad() on an expression that was built with grad enabled
     try:
         x, t = col(0.5, -1.0, 2.0), col(0.3, 0.6, -0.9)
